@@ -539,3 +539,81 @@ def gen_loops():
 if __name__ == '__main__':
     t, d = gen_loops()
     print(t['SweepsDefs'])
+
+
+# ------------------------------------------------------------------ effect sites (C05)
+EFFECT_PREFIXES = ('np.random.', 'numpy.random.', 'random.', 'time.', 'datetime.', 'os.urandom', 'os.getpid', 'os.environ', 'uuid.', 'secrets.',
+                   'threading.', 'multiprocessing.', 'concurrent.', 'socket.', 'tempfile.')
+EFFECT_NAMES = {'hash', 'id', 'set', 'frozenset', 'np.empty', 'np.empty_like', 'np.ndarray', 'numpy.empty', 'input', 'open', 'globals', 'vars'}
+
+
+def extract_effects():
+    """every call in opytimizer/ that can read something other than its arguments and the NumPy global stream:
+    random sources, clocks, process state, hash/identity/set order, uninitialised memory, files — with the module
+    and function it occurs in"""
+    out = []
+    root = os.path.join(REPO, 'opytimizer')
+    for dp, _, files in sorted(os.walk(root)):
+        for fl in sorted(files):
+            if not fl.endswith('.py'):
+                continue
+            path = os.path.join(dp, fl)
+            mod = os.path.relpath(path, REPO)[:-3].replace('/', '.')
+            try:
+                t = ast.parse(open(path).read())
+            except SyntaxError:
+                out.append((mod, '?', 'unparsable'))
+                continue
+            def visit(node, fname):
+                for ch in ast.iter_child_nodes(node):
+                    if isinstance(ch, (ast.FunctionDef, ast.AsyncFunctionDef)):
+                        visit(ch, (fname + '.' if fname else '') + ch.name)
+                    elif isinstance(ch, ast.ClassDef):
+                        visit(ch, (fname + '.' if fname else '') + ch.name)
+                    else:
+                        if isinstance(ch, ast.Call):
+                            f = ast.unparse(ch.func)
+                            if f.startswith(EFFECT_PREFIXES) or f in EFFECT_NAMES:
+                                out.append((mod, fname or '<module>', f))
+                        # set / dict comprehensions and set literals: iteration order of strings depends on the hash seed
+                        if isinstance(ch, (ast.Set, ast.SetComp)):
+                            out.append((mod, fname or '<module>', 'set-literal'))
+                        visit(ch, fname)
+            visit(t, '')
+            for n in ast.walk(t):
+                if isinstance(n, (ast.Import, ast.ImportFrom)):
+                    names = [a.name for a in n.names] if isinstance(n, ast.Import) else [n.module or '']
+                    for nm in names:
+                        if nm.split('.')[0] in ('random', 'secrets', 'uuid', 'threading', 'multiprocessing', 'socket', 'tempfile', 'datetime'):
+                            out.append((mod, '<import>', nm))
+    return sorted(set(out))
+
+
+_old_gen_loops4 = gen_loops
+
+
+def gen_loops():
+    texts, data = _old_gen_loops4()
+    eff = extract_effects()
+    D = ['-- GENERATED by harness/translate_loops.py from every module of opytimizer/. Do not edit.',
+         'import OpyVerif.Model.Effects', 'namespace Opy.Gen', 'open Opy', '',
+         '/-- every call site that can read anything besides its arguments: (module, function, call) -/',
+         'def effectSites : List (String × String × String) := [']
+    D.append(',\n'.join(f'  ({lean_str(a)}, {lean_str(b)}, {lean_str(c)})' for a, b, c in eff))
+    D += [']', '', 'end Opy.Gen', '']
+    texts['EffectsDefs'] = '\n'.join(D)
+    texts['Effects'] = '\n'.join([
+        '-- GENERATED by harness/translate_loops.py: obligations re-decided on every build. Do not edit.',
+        'import OpyVerif.Generated.EffectsDefs', 'import OpyVerif.Model.EffectSites', 'namespace Opy.Gen', 'open Opy',
+        '/-- the library\'s only sources of non-determinism are the NumPy global generator (through the wrappers of',
+        '    math/random, `np.random.choice` in tournament selection, and the seeding-free calls below), the wall clock',
+        '    in `Opytimizer.start`, and file access in `History.save/load` and logging -/',
+        'theorem effectSites_eq : effectSites = Expected.effectSites := by decide +kernel',
+        'end Opy.Gen', ''])
+    data['effects'] = eff
+    return texts, data
+
+
+if __name__ == '__main__':
+    t, d = gen_loops()
+    print(t['EffectsDefs'])
